@@ -4,6 +4,7 @@ Everything a monitor reports goes through a Ctx.  A Ctx is owned by exactly one
 worker process (checks are single-threaded), serialised to a partial result
 file at the end and merged by the parent (vlib/runner.py).
 """
+import os
 import collections
 import hashlib
 import json
@@ -148,7 +149,8 @@ class Ctx:
             self.violations.append({
                 'property': self.prop, 'clause': clause,
                 'case': jsonable(case), 'detail': jsonable(detail),
-                'seed': self.seed, 'tier': self.tier})
+                'seed': self.seed, 'tier': self.tier,
+                'interp_flags': os.environ.get('VERIF_INTERP_FLAGS', '')})
         return True
 
     # ---- (de)serialisation -----------------------------------------
